@@ -6,9 +6,21 @@ BASE = json.load(open('/root/.vp/BASELINE.json'))
 
 # id -> (technique, level text, level note, design ref)
 CLAIMED = {
- "C07": ("contract (requires/ensures) on CalculateQuorum discharged by SMT; cross-language formula extraction",
-         "Deductive proof, for every n in the stated range, that the node's quorum function equals floor(2n/3)+1; BFT lemmas proved over the spec function.",
-         "Trusted: govc VC generator, SMT solvers. Integer overflow excluded by the requires clause (n <= (2^63-1)/10), callers pass len(keys).",
+ "C04": ("contracts on serializeBody/MustWrite/SigningMsg against spec function encBody (offsets extracted from Messages.sol and governance.ral each run); injectivity lemma; SMT",
+         "Deductive proof for all VAAs: the signing body equals encBody(8 body fields) byte for byte, the digest is keccak(keccak(body)), hence a function of those fields only; body_injective proves distinct fields give distinct bodies; the two contract offset tables are proved equal.",
+         "Trusted: govc, SMT solvers, regex-level extraction of the Solidity/Ralph statements (fails closed), keccak uninterpreted (content-extensional), assumed contracts of bytes.Buffer and encoding/binary.Write. Solidity/Ralph execution semantics are not verified.",
+         "DESIGN.md §3-C04"),
+ "C05": ("contracts on Marshal/Unmarshal (loop invariants over reader position), accept-iff/accept-exact/reject-complete clauses, no-panic obligations, round-trip lemmas; SMT",
+         "Deductive proof for all byte strings: the decoder accepts exactly accepts(data), an accepted input is the encoding of the returned VAA (no truncation), a rejected one returns nil, and no index/slice/nil panic is reachable; lemmas encoding_accepted + encoding_injective give the round trip for all payload lengths.",
+         "Trusted: govc, SMT solvers, assumed contracts of bytes.Reader, encoding/binary.Read/Write, bytes.Buffer, time.Unix.",
+         "DESIGN.md §3-C05"),
+ "C06": ("iff-contract on VerifySignatures with two loop invariants and an inductive pigeonhole lemma; SMT",
+         "Deductive proof for all VAAs and address lists: the verdict is true exactly when every signature recovers over the VAA's digest to the address at its claimed index, indices are in range and strictly ascending and signers distinct; no panic on any signature bytes.",
+         "Trusted: govc, SMT solvers; secp256k1 recovery and keccak are uninterpreted functions (so 'changing a body bit changes the verdict' is not claimed, only that the verdict is a function of the digest and the signature list).",
+         "DESIGN.md §3-C06"),
+ "C07": ("contract (requires/ensures) on CalculateQuorum discharged by SMT; Solidity and Ralph formulas parsed into SMT terms each run and proved equal; BFT lemmas",
+         "Deductive proof, for every n in the stated range (unbounded above up to the overflow side-condition), that the node's quorum function equals floor(2n/3)+1 and that the formulas in Messages.sol and governance.ral compute the same; quorum_bft proves >2n/3, <=n and the intersection bound.",
+         "Trusted: govc, SMT solvers, the extraction of the two contract formulas (integer + * / only, fails closed). Integer overflow excluded by the requires clause (n <= (2^63-1)/10); callers pass len(keys).",
          "DESIGN.md §3-C07"),
 }
 
